@@ -241,6 +241,9 @@ func vcAvail(s *vcStream) int { return len(s.data) - s.cur }
 
 func vcModelReadByte(r *bufio.Reader) (byte, error) {
 	s := vcStreamOf(r)
+	if s.end == nil {
+		panic("a stream always ends with a non-nil error")
+	}
 	if s.cur < len(s.data) {
 		c := s.data[s.cur]
 		s.cur++
@@ -251,6 +254,9 @@ func vcModelReadByte(r *bufio.Reader) (byte, error) {
 
 func vcModelDiscard(r *bufio.Reader, n int) (int, error) {
 	s := vcStreamOf(r)
+	if s.end == nil {
+		panic("a stream always ends with a non-nil error")
+	}
 	if n < 0 {
 		return 0, bufio.ErrNegativeCount
 	}
@@ -267,6 +273,9 @@ func vcModelDiscard(r *bufio.Reader, n int) (int, error) {
 // peeked: bufio reports ErrBufferFull, a non-nil error like any other here.
 func vcModelPeek(r *bufio.Reader, n int) ([]byte, error) {
 	s := vcStreamOf(r)
+	if s.end == nil {
+		panic("a stream always ends with a non-nil error")
+	}
 	if n < 0 {
 		return nil, bufio.ErrNegativeCount
 	}
@@ -282,6 +291,9 @@ func vcModelPeek(r *bufio.Reader, n int) ([]byte, error) {
 
 func vcModelReadFull(r io.Reader, buf []byte) (int, error) {
 	s := vcStreamOfReader(r)
+	if s.end == nil {
+		panic("a stream always ends with a non-nil error")
+	}
 	n := len(buf)
 	if n == 0 {
 		return 0, nil
